@@ -131,6 +131,7 @@ pub mod fetch {
     pub struct Messages;
     pub struct Attributes;
     pub struct Modifiers;
+    pub struct ChangedSince;
 }
 
 pub struct FetchCommand<T> {
@@ -231,7 +232,7 @@ impl FetchCommand<fetch::Attributes> {
         self
     }
 
-    pub fn changed_since(mut self, seq: u64) -> FetchCommand<fetch::Modifiers> {
+    pub fn changed_since(mut self, seq: u64) -> FetchCommand<fetch::ChangedSince> {
         self.args.push(b')');
         changed_since(&mut self.args, seq);
         FetchCommand {
@@ -280,9 +281,21 @@ impl From<FetchCommand<fetch::Modifiers>> for Command {
 }
 
 impl FetchCommand<fetch::Modifiers> {
-    pub fn changed_since(mut self, seq: u64) -> FetchCommand<fetch::Modifiers> {
+    pub fn changed_since(mut self, seq: u64) -> FetchCommand<fetch::ChangedSince> {
         changed_since(&mut self.args, seq);
-        self
+        FetchCommand {
+            args: self.args,
+            state: PhantomData,
+        }
+    }
+}
+
+impl From<FetchCommand<fetch::ChangedSince>> for Command {
+    fn from(cmd: FetchCommand<fetch::ChangedSince>) -> Command {
+        Command {
+            args: cmd.args,
+            next_state: None,
+        }
     }
 }
 
